@@ -4,7 +4,7 @@ package file
 
 // Machine-checked contracts for the spokfile logic (comment-only; compiled only with -tags verif).
 
-//@ props C01 C02 C14 C10 C09
+//@ props C01 C02 C14 C10 C09 C19
 
 //@ pred cp(s *SpokFile) := join2(s.Dir, cache.Path)
 //@ pred distinctNames(ro []task.Task) := forall i int, j int :: {ro[i], ro[j]} 0 <= i && i < j && j < len(ro) ==> ro[i].Name != ro[j].Name
@@ -16,7 +16,8 @@ package file
 //@ func (*SpokFile).run
 //@ requires runner != nil && distinctNames(runOrder)
 //@ requires I01(cp(s))
-//@ modifies fexists, fdata, last, ranCount
+//@ modifies fexists, fdata, last, ranCount, fswrites
+//@ ensures [C19,writes-only-inside-the-cache-directory] forall p string :: {fswrites[p]} fswrites[p] && !old(fswrites)[p] ==> ancOrSelf(join2(s.Dir, ".spok"), p)
 //@ crashinv [C10] I01(cp(s))
 //@ at call Run#0: assert [C10,invalidated-before-run] diskOK(cp(s)) ==> diskGet(cp(s), taskToRun.Name) == ""
 //@ ensures [I01] I01(cp(s))
@@ -31,6 +32,7 @@ package file
 //@ ensures [C03,exec-once] result1 == nil ==> forall i int :: {result0[i]} 0 <= i && i < len(result0) ==> ranCount[runOrder[i].Name] == old(ranCount)[runOrder[i].Name] + (result0[i].Skipped ? 0 : 1)
 //@ at return Run#0: ghost last = store(last, taskToRun.Name, (err == nil && cmdsOk(result, len(result)) ? cur(mapval(s.Globs), taskToRun) : ""))
 //@ loop 0: invariant 0 <= $i && $i <= len(runOrder) && len(results) == $i
+//@ loop 0: invariant forall p string :: {fswrites[p]} fswrites[p] && !old(fswrites)[p] ==> ancOrSelf(join2(s.Dir, ".spok"), p)
 //@ loop 0: invariant CacheInv(cachedState) && memIsDisk(cachedState, cp(s)) && I01(cp(s))
 //@ loop 0: invariant forall k int :: {results[k]} 0 <= k && k < $i ==> results[k].Task == runOrder[k].Name
 //@ loop 0: invariant forall k int :: {results[k]} 0 <= k && k < $i && results[k].Skipped ==> !force && len(inputs(mapval(s.Globs), runOrder[k])) > 0
@@ -99,7 +101,8 @@ package file
 //@ func (*SpokFile).Run
 //@ props C03 C09 C01 C02 C14 C05
 //@ requires runner != nil && TasksInv(s) && I01(cp(s)) && s.Globs != nil && GlobsCurrent(s)
-//@ modifies fexists, fdata, last, ranCount, dagV, dagE, dagItem, dagN, qpos, lastGraph, runPhase, mapOf(s.Globs)
+//@ modifies fexists, fdata, last, ranCount, dagV, dagE, dagItem, dagN, qpos, lastGraph, runPhase, mapOf(s.Globs), fswrites
+//@ ensures [C19,writes-only-inside-the-cache-directory] forall p string :: {fswrites[p]} fswrites[p] && !old(fswrites)[p] ==> ancOrSelf(join2(s.Dir, ".spok"), p)
 //@ at entry: ghost runPhase = 0
 //@ at return buildGraph#0: ghost lastGraph = dag
 //@ at call run#0: ghost runPhase = 1
